@@ -263,11 +263,24 @@ ADDENDA = {
         'its seat, answers, awaits "ready for teams", signals, passes the barrier and sends the Teams message built from the table after the barrier '
         '(seat_connect_translated, seat_connect_not_ready_translated, seat_connect_matches_connectR); Translated/ThreadsMainC.lean: the translated accept loop performs one accept round (accept, new thread, start, wait for the verdict, sleep, is_alive, clear) per served connection until the table is full and keeps the threads found alive (main_accept_loop_translated). In the admission sessions of this check every '
         'connection thread (seated or refused) and the accept loop are compared with the translated program.',
- 'C17': ' The PBN parser itself is TRANSLATED on every run (data_handler/pbn_handler/parser.py -> Generated/PyCorePbn.lean: extract_content, parse_board, the '
-        'generator parse_stream, parse_all, parse_board_settings) and the translated program reads the generated import files and PBN-ish soup exactly as '
-        'the real parser does (same boards, same exception class); no theorem yet relates the translated parser to the hand-written model — the unbounded '
-        'theorems are about the model, tied by correspondence.',
- 'C18': ' The PBN parser is TRANSLATED on every run (Generated/PyCorePbn.lean) and reads the export texts of this check exactly as the real parser does.',
+ 'C17': ' The PBN parser itself is TRANSLATED on every run (data_handler/pbn_handler/parser.py -> Generated/PyCorePbn.lean) and, since session 5, '
+        'PROVED equal to the hand-written model: Translated/PbnParser.lean (pp_extract_content_translated, pp_parse_board_translated, '
+        'pp_parse_stream_translated, pp_parse_all_translated: for a fresh parser and EVERY list of non-empty lines the translated parse_all returns '
+        'exactly the games of the model\'s parseStream; the number of lines is unbounded, the line length is bounded by the interpreter\'s fuel; % lines '
+        'must pass the decidable checker pctLineOk) with the regular-expression hypotheses discharged in Translated/PbnParserClosed.lean by '
+        'Lemmas/RegexPbn.lean (pbnRegexFacts: for EVERY subject string the generic regex engine on TAG_PATTERN / REPLACE_PATTERN / '
+        '_VALUE_OR_SPACE_PATTERN computes what the hand scanners semiEmpty / searchTag / findTags / collapseWs compute — Appendix F, R11 is no longer '
+        'an assumption about scanners) and Props/Regex.lean (the pattern texts of those theorems are the texts extracted from the source and the '
+        'constants the translated class hands to the engine). So the unbounded import theorem of the model now speaks about the translated parser; '
+        'the translated program also reads the generated import files and PBN-ish soup next to the real parser on every run. Likewise '
+        'Lemmas/RegexHands.lean (handsRegexFacts: DEAL_PATTERN / HAND_PATTERN on every subject = takeHandField? / matchGroups).',
+ 'C18': ' The PBN parser is TRANSLATED on every run (Generated/PyCorePbn.lean), reads the export texts of this check exactly as the real parser does, '
+        'and is PROVED equal to the reader model the round-trip theorems are about (Translated/PbnParser.lean, PbnParserClosed.lean; regular expressions '
+        'by Lemmas/RegexPbn.lean, pattern texts tied to the source by Props/Regex.lean) — see C17.',
+ 'C14': ' Since session 5 the two regular expressions of hands.py are no longer represented by differential-tested scanners only: '
+        'Lemmas/RegexHands.lean proves, for EVERY subject string, that the generic regex engine on DEAL_PATTERN gives the fields of takeHandField? '
+        '(the skeleton of convertPbn?) and on HAND_PATTERN (subjects without a line feed; kernel-checked counterexample with one) the groups of '
+        'matchGroups; Props/Regex.lean ties the pattern texts to the source and to the constants of the translated module.',
  'C10': ' The seat thread that sends these streams is also covered as TRANSLATED code (see C09: Generated/PyCoreThreads.lean, Translated/ThreadsSeat*.lean). '
         'Refused actions (an illegal call, a card not held, a card already played) are exercised too: nobody may be told about an action that was not accepted.',
  'C13': ' The operator\'s interrupt is also delivered as a REAL signal (harness/sigint_smoke.py: Server.run in the main thread of a child process over loopback '
